@@ -38,8 +38,10 @@ struct ChecksumService {
 class ChecksumServiceContext {
  public:
   static ChecksumServiceContext& instance() { static ChecksumServiceContext c; return c; }
+  bool verif_enabled = true;   // monitor side: the driver empties / restores the registry between encodes (case kind U)
   template <typename B, typename T>
   const ChecksumService<B, T>* get(const std::string& name) {
+    if (!verif_enabled) return nullptr;
     // names are case-sensitive: exactly these eight are registered, each for the unsigned type of its width
     static const char* names[8] = {"SUM8", "Xor8", "CRC16", "Add16", "CRC32", "Mix32", "CRC64", "Mix64"};
     static const size_t widths[8] = {1, 1, 2, 2, 4, 4, 8, 8};
